@@ -453,7 +453,16 @@ func (x *fnExec) replayArgTerms(st *State) map[string][]Term {
 		var ts []Term
 		ok := true
 		for _, a := range ri.Call.Args {
-			t, err := x.evalIn(st, x.ctx(st), a)
+			c := x.ctx(st)
+			// inside a loop: prev(x) is the value at the loop head (as in step clauses)
+			for h, on := range st.inLoop {
+				if on {
+					if pv, ok := st.prevVals[h]; ok {
+						c.prev = pv
+					}
+				}
+			}
+			t, err := x.evalIn(st, c, a)
 			if err != nil {
 				ok = false
 				break
@@ -508,9 +517,11 @@ func (x *fnExec) execBlock(st *State, b *ssa.BasicBlock, pred *ssa.BasicBlock) {
 			fail("step limit exceeded (path explosion) in %s", x.fnName())
 		}
 		// leaving loops: clear inLoop flags for loops that do not contain b
-		for h := range st.inLoop {
-			if st.inLoop[h] && !x.loops[h].body[b] {
-				delete(st.inLoop, h)
+		if len(st.inline) == 0 {
+			for h := range st.inLoop {
+				if st.inLoop[h] && !x.loops[h].body[b] {
+					delete(st.inLoop, h)
+				}
 			}
 		}
 		start := 0
@@ -1579,8 +1590,25 @@ func (v *Verifier) rtypeFact(t Term) string {
 // scheduling, time or randomness: no map range, select, go or channel operation, and every callee is itself deterministic
 // (structurally, or by a contract that pins the result down uniquely).
 func (x *fnExec) checkDeterministic() {
+	problems := x.scanDeterministic(x.fn, 0)
+	props := x.c.DetermProps
+	if len(props) == 0 {
+		props = x.c.Props
+	}
+	o := &Obligation{Name: x.fnName() + ".deterministic", Func: x.fnName(), Kind: "structural", Label: "deterministic", Props: props,
+		Clause: "result is a function of the inputs only (structural scan)", Goal: "true", Preset: true, Result: "unsat", Solver: "structural-scan"}
+	if len(problems) > 0 {
+		o.Result = "structural-fail"
+		o.Output = strings.Join(dedup(problems), "; ")
+	}
+	x.v.obls = append(x.v.obls, o)
+}
+
+// scanDeterministic lists the constructs in fn that could make its result depend on anything but its inputs. A call of a
+// repository function without contract is followed into its body (the same functions that are executed inline).
+func (x *fnExec) scanDeterministic(fn *ssa.Function, depth int) []string {
 	var problems []string
-	for _, b := range x.fn.Blocks {
+	for _, b := range fn.Blocks {
 		for _, in := range b.Instrs {
 			switch i := in.(type) {
 			case *ssa.Range:
@@ -1604,6 +1632,13 @@ func (x *fnExec) checkDeterministic() {
 				c := x.calleeContract(&i.Call)
 				name := x.calleeName(&i.Call)
 				if c == nil {
+					callee := i.Call.StaticCallee()
+					if callee != nil && depth < 2 && callee != fn && x.inlinable(callee, newState()) {
+						for _, p := range x.scanDeterministic(callee, depth+1) {
+							problems = append(problems, p+" (in "+name+")")
+						}
+						continue
+					}
 					problems = append(problems, "call of "+name+" (no contract)")
 				} else if c.Determ == "" && !c.NoReturn {
 					problems = append(problems, "call of "+name+" (not marked deterministic)")
@@ -1611,15 +1646,5 @@ func (x *fnExec) checkDeterministic() {
 			}
 		}
 	}
-	props := x.c.DetermProps
-	if len(props) == 0 {
-		props = x.c.Props
-	}
-	o := &Obligation{Name: x.fnName() + ".deterministic", Func: x.fnName(), Kind: "structural", Label: "deterministic", Props: props,
-		Clause: "result is a function of the inputs only (structural scan)", Goal: "true", Preset: true, Result: "unsat", Solver: "structural-scan"}
-	if len(problems) > 0 {
-		o.Result = "structural-fail"
-		o.Output = strings.Join(dedup(problems), "; ")
-	}
-	x.v.obls = append(x.v.obls, o)
+	return problems
 }
